@@ -116,7 +116,16 @@ def lean_phase(ctx, mod):
     gen_modules = []
     gen_names = []
     if hasattr(mod, 'generate'):
-        g = mod.generate(ctx) or {}
+        try:
+            g = mod.generate(ctx) or {}
+        except Exception as e:     # noqa
+            # the translator cannot express what the source now says (a string it does not understand, a shape it
+            # does not expect): the model is no longer regenerated from the source, i.e. the tie is broken.  That is
+            # a broken obligation, not a tool failure: the failing-input search decides what is reported.
+            import traceback
+            last = traceback.format_exc().strip().split('\n')[-1]
+            ctx.broken.append('translator: the model cannot be regenerated from the current source: ' + last[:300])
+            g = {'modules': list(getattr(mod, 'GEN_MODULES', [])), 'theorems': []}
         gen_modules = g.get('modules', [])
         gen_names = g.get('theorems', [])
     targets = prop_modules + gen_modules
